@@ -7,7 +7,9 @@ from props.lefcommon import *
 
 HARNESS_BINS = ["c04"]
 
-UTF = ["é", "ß", "中", "\U0001F600", "́", "\u0085", " ", " ", "　", "Ж"]
+UTF = ["é", "ß", "中", "\U0001F600", "́", "\u0085", " ", " ", "　", "Ж",
+       # characters that are numeric / alphabetic / white space for Unicode but not for ASCII-minded code
+       "\u00b2", "\u00bd", "\u0663", "\uff13", "\u2167", "\u00a0", "\u2003", "\u000b"]
 # numbers at the edges of rust_decimal (96-bit magnitude, 28 decimals) and of the lexer's i32/f64 number test: arithmetic on a
 # parsed number (a product, a scale change, a conversion) must not panic whatever its magnitude
 EXTREME_NUMBERS = ["79228162514264337593543950335", "-79228162514264337593543950335", "79228162514264337593543950336",
@@ -62,6 +64,9 @@ def gen_cases(chk, texts):
               *["VERSION %s ;" % n for n in EXTREME_NUMBERS], *["MACRO m SIZE %s BY %s ; END m" % (n, n) for n in EXTREME_NUMBERS],
               *["UNITS DATABASE MICRONS %s ; END UNITS" % n for n in EXTREME_NUMBERS], *["MANUFACTURINGGRID %s ;" % n for n in EXTREME_NUMBERS[:6]],
               *["MACRO m ORIGIN %s %s ; END m" % (n, n) for n in EXTREME_NUMBERS[:6]],
+              "\u00b2", "MACRO \u00b2", "VERSION \u00bd", "\u0663\u0663", "\uff13 ", "x \u00b2\u00a0", "MACRO m SIZE \u00b2 BY \uff13 ; END m",
+              "\u00b2x \u00bdy\u00a0\u0663", "VERSION 5.8 ;\n\uff13",
+              "\n" * 60000 + "VERSION 5.8 ;", "# c\n" * 40000 + "VERSION 5.8 ;\nMACRO m\nEND m\n", " \n\t" * 30000 + "FOO", ("#\n\n" * 30000),
               "x" * 300 + " y", "é" * 250 + " y", "VERSION 5.8 ;\n" + "中" * 210 + "\nFOO", "MACRO m OBS LAYER l ; POLYGON 0 0 1 1 ; END END m"]:
         add("handpicked", s)
     # every prefix (on a character boundary)
@@ -118,7 +123,7 @@ def gen_cases(chk, texts):
     return cases, dist
 
 def timing(chk):
-    """wall-clock linearity of the implementation (supporting evidence): time at n, 2n, 4n"""
+    """wall-clock linearity of the implementation (supporting evidence): time at n, 4n, 16n"""
     fams = {
         "rects": lambda n: "MACRO m OBS LAYER l ; " + "RECT 0 0 1 1 ; " * n + "END END m",
         "comment": lambda n: "# " + "é" * (8 * n) + "\nVERSION 5.8 ;",
@@ -132,7 +137,7 @@ def timing(chk):
     out = {}
     worst = 0.0
     for name, f in fams.items():
-        cs = [{"op": "time", "src": f(base * k).encode("utf8").hex(), "reps": 3} for k in (1, 2, 4)]
+        cs = [{"op": "time", "src": f(base * k).encode("utf8").hex(), "reps": 3} for k in (1, 4, 16)]
         rs = harness("c04", cs)
         if any("ns" not in r for r in rs):
             out[name] = {"error": rs}
@@ -140,8 +145,10 @@ def timing(chk):
             continue
         ns = [r["ns"] for r in rs]
         bytes_ = [len(c["src"]) // 2 for c in cs]
-        ratio = ns[2] / max(1, ns[0])
-        out[name] = {"bytes": bytes_, "ns": ns, "t(4n)/t(n)": round(ratio, 2)}
+        # growth between the two LARGEST sizes (constant overheads no longer matter there): linear time gives 4,
+        # quadratic 16; the violation threshold is 8
+        ratio = ns[2] / max(1, ns[1])
+        out[name] = {"bytes": bytes_, "ns": ns, "t(16n)/t(4n)": round(ratio, 2), "t(4n)/t(n)": round(ns[1] / max(1, ns[0]), 2)}
         worst = max(worst, ratio)
     return out, worst
 
@@ -271,8 +278,8 @@ def run(chk, replay=None):
             what, bytes.fromhex(c["src"]).decode("utf8", "replace")[:120], json.dumps(r["r"] if cd[0] == 2 else {"w": r.get("w"), "r2": r.get("r2")})[:300],
             len(viol), len(cases), sorted({v[0]["kind"] for v in viol})[:8]),
             {"cases": [v[0] for v in viol[:50]], "impl": [v[1]["r"] if "ok" not in v[1]["r"] else "ok" for v in viol[:50]]})
-    elif worst > 12:
-        chk.violation("LEF reader time is not proportional to input length: t(4n)/t(n) = %.1f (%s)" % (worst, json.dumps(chk.cov["timing"])[:400]),
+    elif worst > 8:
+        chk.violation("LEF reader time is not proportional to input length: t(16n)/t(4n) = %.1f (%s)" % (worst, json.dumps(chk.cov["timing"])[:400]),
                       {"timing": chk.cov["timing"]}, no_input=False)
     elif mism:
         c, r, cd = min(mism, key=lambda x: len(x[0]["src"]))
